@@ -6,32 +6,46 @@ HSFZ / ISO-TP discovery scanners against Model/Parse.lean (the oracle the proper
 import asyncio
 import ipaddress
 import itertools
+import sys
 import types
 
+import c20_ext
 from common import setup_repo_import
 
 ID = "C20"
-GENS = []
+GENS = ["c20_tables"]
 PROOF = "Gallia.Proofs.C20"
 DRIVER = "c20"
 ORACLE = True
 ASSUMPTIONS = [
-    "alphabet is ASCII: Unicode digits / spaces that int() additionally accepts are outside the model",
-    "urlencode / parse_qs are the identity on the parameter alphabet [A-Za-z0-9_.-] (stdlib quoting is trusted outside it)",
+    "a Python str holding a lone surrogate is outside the model (quote_plus raises UnicodeEncodeError; Lean's Char is a Unicode scalar value)",
+    "the network location of a raw URI is ASCII without userinfo; urlsplit's NFKC check of non-ASCII hosts and its bracket / IPvFuture "
+    "validation are outside the model (hosts are generated over names, IPv4 and IPv6 literals; parameters and paths are arbitrary text)",
     "IP-literal hosts are compared as addresses (ipaddress canonical form) on both sides",
-    "plain pydantic int fields (ack_timeout, frame_txtime, tx_dl) are tied on [+-]?[0-9]+ only",
+    "plain pydantic int fields (ack_timeout, frame_txtime, tx_dl) are C18's parseLaxInt after trimming the characters pydantic trims "
+    "(regenerated table); the theorem covers decimal text with optional sign, leading zeros, a .0 suffix and surrounding white space - "
+    "digit-group underscores, texts longer than 4300 digits and float-like texts are covered by the tie only",
     "range widths are kept <= 5000 (the real code and the model both enumerate ranges)",
+    "connect() is followed up to the first network call: socket options (struct.pack range errors for out-of-range numbers), name "
+    "resolution and the connection itself are replaced by recorders",
+    "only the transports of the built-in registry on this platform (linux: tcp, tcp-lines, doip, hsfz, isotp, can-raw, unix, unix-lines); "
+    "plugin transports would break the `all_schemes_modelled` obligation rather than be modelled",
 ]
 
 WS = " \t\n\r\x0b\x0c"
 
 
 def hs(s: str) -> str:
-    return s.encode("ascii").hex() if s else "-"
+    """a text on the driver's line protocol: hex of its UTF-8 bytes"""
+    return s.encode("utf-8").hex() if s else "-"
 
 
 def unhs(h: str) -> str:
-    return "" if h == "-" else bytes.fromhex(h).decode("latin-1")
+    return "" if h == "-" else bytes.fromhex(h).decode("utf-8")
+
+
+def hb(b: bytes) -> str:
+    return b.hex() if b else "-"
 
 
 def show_nats(l):
@@ -160,7 +174,7 @@ class Real:
         except ValueError:
             return "err"
         host = "none" if host is None else hs(canon_host(host))
-        return f"{hs(u.url.scheme)} {host} {port} {show_args(u.qs_flat)}"
+        return f"{hs(u.url.scheme)} {host} {port} {show_args(u.qs_flat)} {hs(u.path)}"
 
     def qs_flat(self, raw):
         try:
@@ -204,10 +218,10 @@ def canon_model_split(out: str) -> str:
 def canon_model_parse(out: str) -> str:
     if out in ("err", "bad-op"):
         return out
-    sch, h, p, a = out.split()
+    sch, h, p, a, path = out.split()
     if h != "none":
         h = hs(canon_host(unhs(h)))
-    return f"{sch} {h} {p} {a}"
+    return f"{sch} {h} {p} {a} {path}"
 
 
 # ---------------------------------------------------------------------------------------------------------
@@ -1003,6 +1017,10 @@ def run(ctx):
         nt("isotp-discoverer", repr((iface, start, stop, padding, extended, tester, sorted(answers.items()))))
     B.flush()
     ctx.notes["scanner_uris_read_back"] = n_found
+
+    # ---- 7. percent-encoding, Unicode edge, arbitrary parameter maps, every transport, unix sockets ---------
+    c20_ext.run_ext(ctx, real, B, sys.modules[__name__], nt, limited)
+    B.flush()
     ctx.sample({"fn": "unravel", "input": unhs(ctx.lean([f"render {toks[0]}"])[0]), "oracle": ctx.lean([f"denote {toks[0]}"])[0]})
     ctx.sample({"fn": "from_parts", "case": repr(uri_cases[3][:4]), "oracle": unhs(model_uris[3]), "parsed": model_parsed[3]})
 
@@ -1014,7 +1032,7 @@ def scanner_readback(real, scheme, raw):
     p = real.parse(raw)
     if p == "err":
         return "unparseable"
-    sch, host, port, _args = p.split()
+    sch, host, port, _args, _path = p.split()
     q = real.qs_flat(raw)
     return f"{unhs(sch)} {host} {port} {real.config(scheme, q)}"
 
@@ -1183,23 +1201,43 @@ def replay(ctx, case):
                 print(f"now [{what}]: impl={i!r} oracle={m!r}")
                 differs = differs or i != m
     else:
-        print("no specialised replay for this case; recorded case printed above")
+        r = c20_ext.replay_ext(ctx, real, sys.modules[__name__], c)
+        if r is None:
+            print("no specialised replay for this case; recorded case printed above")
+        else:
+            differs = r
     return differs
 
 
 MANIFEST = {
-    "level_text": ("Lean 4 theorems over the parsing oracle: every spelling of every integer (sign, 0x/0o/0b in either case, "
-                   "leading zeros, digit-group underscores, surrounding whitespace) is read back as that integer and the base-0 "
-                   "rule rejects 010; a range expression rendered in any of these notations denotes exactly the strictly "
-                   "increasing, duplicate-free union of its numbers and inclusive ranges (reversed ranges empty), per outer key "
-                   "in the two-dimensional form with a bare key meaning all; host:port join/split and TargetURI "
-                   "from_parts/parse round trips for names, IPv4, IPv6 and every port 0..65535; the transport settings read "
-                   "from the URI are the numbers written. Tied to the code by a differential run of the real auto_int, unravel, "
-                   "unravel_2d, Ranges/Ranges2D/AutoInt field types, split_host_port/join_host_port, TargetURI, "
-                   "DoIPConfig/HSFZConfig/ISOTPConfig and the HSFZ / ISO-TP discovery scanners (fake buses): exhaustive over "
-                   "small alphabets and all ports, seeded over the grammar."),
-    "level_note": ("Trusted: Lean kernel (axioms propext, Quot.sound, Classical.choice), urllib / ipaddress / pydantic contracts "
-                   "outside the modelled alphabets, the harness; ASCII alphabet only; IP-literal hosts compared as addresses."),
-    "technique": "Lean 4 proof (structural / well-founded induction over the parsers and renderers) + differential correspondence against the real parsers",
+    "level_text": ("Lean 4 theorems over the parsing oracle: every spelling of every integer (sign, 0x/0o/0b in either case, leading "
+                   "zeros, digit-group underscores, surrounding white space incl. the non-ASCII spaces int() skips, decimal digits of "
+                   "any Unicode script) is read back as that integer, the base-0 rule rejects 010, and whatever auto_int accepts "
+                   "consists of ASCII, Unicode spaces and Unicode decimal digits only (U+001C..1F are not skipped); a range "
+                   "expression rendered in any of these notations denotes exactly the strictly increasing, duplicate-free union of "
+                   "its numbers and inclusive ranges (reversed ranges empty), per outer key in the two-dimensional form with a bare "
+                   "key meaning all; host:port join/split for names, IPv4, IPv6 and every port 0..65535; percent-encoding "
+                   "(quote_plus / unquote_plus / unquote_to_bytes, UTF-8 with U+FFFD replacement) round-trips every byte string "
+                   "and every text; TargetURI.from_parts / parse round-trips scheme, host, port and ANY parameter map with distinct "
+                   "names and non-blank values (`&`, `=`, `#`, `?`, `%`, `+`, space, non-ASCII included), and qs_flat of any "
+                   "parameter list is exactly 'blank values dropped, first value of a name kept'; for every transport of the "
+                   "live registry (tcp, tcp-lines, doip, hsfz, isotp, can-raw, unix, unix-lines) the settings read from such a URI "
+                   "are the numbers / truth values written, in every spelling the field's reader accepts (auto_int: all bases; plain "
+                   "int: decimal with sign, leading zeros, .0, white space; bool: every accepted word in any capitalisation), "
+                   "unknown parameters ignored, and connect() goes on with the written host, the written or default port (13400 / "
+                   "6801) or the written unix path, after a scheme check that refuses every other scheme (HSFZ has none). Tied to "
+                   "the code by regenerated tables (transport registry with field kinds / required flags / connect facts by AST, "
+                   "TransportScheme, the Unicode space / digit tables of the running interpreter, pydantic's trim set, quote's safe "
+                   "set) and a differential run of the real auto_int, unravel, unravel_2d, Ranges/Ranges2D/AutoInt field types, "
+                   "split_host_port/join_host_port, urllib quoting, TargetURI, every transport's pydantic config and connect() "
+                   "(network calls recorded), and the HSFZ / ISO-TP discovery scanners (fake buses): exhaustive over small "
+                   "alphabets, all ports, every BMP code point in digit / space position, all byte strings <= 2 for the codecs; "
+                   "Hypothesis text for parameter names and values; seeded over the grammars."),
+    "level_note": ("Trusted: Lean kernel (axioms propext, Quot.sound, Classical.choice), urlsplit's handling of non-ASCII / malformed "
+                   "network locations, ipaddress, pydantic's lax int beyond the tied texts, the harness; lone surrogates outside; "
+                   "IP-literal hosts compared as addresses; connect() observed up to the first network call."),
+    "technique": ("Lean 4 proof (structural / well-founded induction over the parsers, renderers and codecs; table facts by kernel "
+                  "evaluation) + regenerated tables with agreement obligations + differential correspondence against the real parsers, "
+                  "config models and connect() methods"),
     "design_ref": "DESIGN.md section 7, C20",
 }
